@@ -1274,7 +1274,12 @@ class NumbaBackend(NumpyBackend):
             """Special sympy printer returning arrays as lists."""
 
             def _print_ImmutableDenseNDimArray(self, arr):
-                arrays = ", ".join(f"{self._print(expr)}" for expr in arr)
+                if arr.rank() > 1:
+                    arrays = ", ".join(f"{self._print(expr)}" for expr in arr)
+                else:
+                    # use floating-point numbers for all components, so rows of
+                    # integers and rows of floats result in lists of the same type
+                    arrays = ", ".join(f"1.0 * ({self._print(expr)})" for expr in arr)
                 return f"[{arrays}]"
 
         printer = ListArrayPrinter(
